@@ -327,7 +327,7 @@ func (c *Canon) assign1(lhs ast.Expr, rhsE ast.Expr, rhs string, define bool, po
 			return []*Node{{Kind: "call", Head: rhs, Value: rhs, Pos: pos}}
 		}
 		o := c.obj(id)
-		if o != nil && c.isLocalVar(o) && c.nAssign[o] == 1 && !c.Opt.NoSubst && rhsE != nil && c.pureExpr(rhsE) {
+		if define && o != nil && c.isLocalVar(o) && c.nAssign[o] == 1 && !c.Opt.NoSubst && rhsE != nil && c.pureExpr(rhsE) {
 			c.subst[o] = rhs
 			return nil
 		}
@@ -1126,4 +1126,13 @@ func (c *Canon) Stmts(fd *ast.FuncDecl, body []ast.Stmt) []*Node {
 		c.countAssigns(fd.Body)
 	}
 	return c.block(body)
+}
+
+// Bin renders a binary expression canonically outside of a Canon (used by spec generators).
+func Bin(op token.Token, l, r string, stringish bool) string {
+	var t types.Type = types.Typ[types.Int]
+	if stringish {
+		t = types.Typ[types.String]
+	}
+	return (&Canon{}).binary(op, l, r, t)
 }
